@@ -248,6 +248,7 @@ func GvcHavoc[T any]() T                   { panic("gvc") }
 func GvcAssume(b bool)                     { panic("gvc") }
 func GvcAssert(b bool, label string)       { panic("gvc") }
 func GvcFresh[T any](p T) bool             { panic("gvc") }
+func GvcLoopFresh[T any](p T) bool         { panic("gvc") }
 func GvcTypeName(x any) string             { panic("gvc") }
 
 type GvcArr[K comparable, V any] struct{ _ [0]func(K) V }
@@ -286,9 +287,15 @@ func generateOverlay(pk *packages.Package, fset *token.FileSet, cf *ContractFile
 		b.WriteString("var " + g + "\n")
 	}
 	b.WriteString("\n// ---- spec helpers ----\n")
-	for _, l := range cf.SpecLines {
-		b.WriteString(l + "\n")
+	specText := strings.Join(cf.SpecLines, "\n")
+	if strings.Contains(specText, "(forall ") || strings.Contains(specText, "(exists ") {
+		ds, err := desugarGroups(specText, nil)
+		if err != nil {
+			return nil, fmt.Errorf("spec helpers of %s: %v", pk.PkgPath, err)
+		}
+		specText = ds
 	}
+	b.WriteString(specText + "\n")
 	b.WriteString("\n// ---- contract clauses ----\n")
 
 	imports := map[string]string{} // alias -> path
@@ -416,7 +423,7 @@ func generateOverlay(pk *packages.Package, fset *token.FileSet, cf *ContractFile
 					}
 				}
 				fmt.Fprintf(&b, "func %s%s(%s) []any {\n\treturn []any{%s}\n}\n", cl.Gen, c.typeParams(), sigPre, strings.Join(items, ", "))
-			case "localwrites":
+			case "localwrites", "freshwrites":
 				// no generated function
 			case "invariant", "decreases":
 				if fd == nil {
